@@ -17,11 +17,11 @@ pub const RULE13: &str = "case = (alphabet, matrix, background and object reuse 
 pub const REQUIRED12: &[&str] = &[
     "alphabet.dna", "alphabet.protein", "bg.uniform", "bg.nonuniform", "query.below_min", "query.far_below_min",
     "query.above_max", "query.attainable", "query.attainable_eps", "query.random", "iterations.checked", "converged.observed",
-    "pvalue.checked", "matrix.finite_wildcard_column", "bg.zero_frequency_symbols", "bg.wildcard_weighted", "object.reused_after_other_queries", "matrix.row_min_in_(0,0.1)",
+    "pvalue.checked", "matrix.finite_wildcard_column", "bg.zero_frequency_symbols", "bg.wildcard_weighted", "bg.skewed_from_counts", "matrix.flat_row", "object.reused_after_other_queries", "matrix.row_min_in_(0,0.1)",
 ];
 pub const REQUIRED13: &[&str] = &[
     "alphabet.dna", "alphabet.protein", "bg.uniform", "bg.nonuniform", "p.attainable_tail", "p.between_tails",
-    "p.log_uniform", "iterations.checked", "converged.observed", "score.checked", "lower_side.checked", "matrix.finite_wildcard_column", "bg.zero_frequency_symbols", "bg.wildcard_weighted", "object.reused_after_other_queries", "matrix.row_min_in_(0,0.1)",
+    "p.log_uniform", "p.smallest_tails", "iterations.checked", "converged.observed", "score.checked", "lower_side.checked", "matrix.finite_wildcard_column", "bg.zero_frequency_symbols", "bg.wildcard_weighted", "bg.skewed_from_counts", "matrix.flat_row", "object.reused_after_other_queries", "matrix.row_min_in_(0,0.1)",
 ];
 
 pub struct Setup<A: Alphabet> {
@@ -65,7 +65,16 @@ pub fn setup<A: Alphabet>(rng: &mut Rng, rep: &mut Report, max_m: usize) -> Opti
         let mut bgv: Vec<f32> = parts.iter().map(|&p| p as f32 / unit as f32).collect();
         bgv.push(0.0);
         (bgv.clone(), Background::<A>::new(bgv.iter().cloned().collect::<GenericArray<f32, A::K>>()).ok()?)
-    } else if rng.chance(0.12) {
+    } else if rng.chance(0.1) {
+        // strongly skewed (from counts): word probabilities span 20 orders of magnitude, the rare
+        // symbols are often the high-scoring ones of a log-odds matrix
+        rep.cover("bg.skewed_from_counts");
+        let mut c: Vec<usize> = (0..k).map(|j| if j == k - 1 { 0 } else { 1 }).collect();
+        c[rng.below(k - 1)] = *rng.pick(&[9997usize, 99_997, 509]);
+        let ga: GenericArray<usize, A::K> = c.iter().cloned().collect();
+        let b = Background::<A>::from_counts(&ga).ok()?;
+        (b.frequencies().to_vec(), b)
+    } else if rng.chance(0.2) {
         // the wildcard has a non-zero frequency: it is one more symbol of the random word
         rep.cover("bg.wildcard_weighted");
         wild_weight = true;
@@ -104,12 +113,21 @@ pub fn setup<A: Alphabet>(rng: &mut Rng, rep: &mut Report, max_m: usize) -> Opti
                 }
             }
             // some rows strictly positive, some strictly negative
-            match rng.below(5) {
+            match rng.below(7) {
                 0 => {
                     let lo = r[..k - 1].iter().cloned().fold(f32::INFINITY, f32::min);
                     for x in r.iter_mut().take(k - 1) {
                         *x += 0.5 - lo;
                     }
+                }
+                5 => {
+                    // (nearly) flat over the regular symbols: one integer score at the coarse steps
+                    let v = r[0];
+                    let spread = *rng.pick(&[0.0f32, 0.0, 0.04, 0.004]);
+                    for x in r.iter_mut().take(k - 1) {
+                        *x = v + spread * rng.f32_in(0.0, 1.0);
+                    }
+                    rep.cover("matrix.flat_row");
                 }
                 4 => {
                     // strictly positive with a minimum below the coarsest granularity (0.1)
@@ -177,6 +195,15 @@ impl<A: Alphabet> Setup<A> {
         }
         d.get()
     }
+}
+
+/// comparisons up to a RELATIVE noise (probabilities are sums of products of non-negative f64
+/// terms on both sides, so tiny tails are accurate to rounding too; 1e-300 absorbs exact zeros)
+fn gt(x: f64, y: f64, rel: f64) -> bool {
+    x > y * (1.0 + rel) + 1e-300
+}
+fn lt(x: f64, y: f64, rel: f64) -> bool {
+    x < y * (1.0 - rel) - 1e-300
 }
 
 const MIN_G: f64 = 0.5e-8;
@@ -355,13 +382,13 @@ fn case12<A: Alphabet>(case: u64, rng: &mut Rng, rep: &mut Report, alpha: &str, 
                 rep.violate("c12.range_order", case, format!("score {} granularity {}: range [{}, {}] is not an ordered sub-range of [0,1]", s, g, pmin, pmax), wit());
                 return;
             }
-            if pmin < lo - noise {
-                let ignored = st.ex_nowild.as_ref().map_or(false, |a| pmin >= a.sf(s + (m + 1.0) * g) - noise);
+            if lt(pmin, lo, noise) {
+                let ignored = st.ex_nowild.as_ref().map_or(false, |a| !lt(pmin, a.sf(s + (m + 1.0) * g), noise));
                 rep.violate(if ignored { "c12.wildcard_symbol_ignored" } else { "c12.lower_bound" }, case, format!("score {} granularity {}: pmin {} < P(S >= s+(M+1)g) = {}", s, g, pmin, lo), wit());
                 return;
             }
-            if pmax > hi + noise {
-                let ignored = st.ex_nowild.as_ref().map_or(false, |a| pmax <= a.sf(s - (m + 2.0) * g) + noise);
+            if gt(pmax, hi, noise) {
+                let ignored = st.ex_nowild.as_ref().map_or(false, |a| !gt(pmax, a.sf(s - (m + 2.0) * g), noise));
                 rep.violate(if ignored { "c12.wildcard_symbol_ignored" } else { "c12.upper_bound" }, case, format!("score {} granularity {}: pmax {} > P(S >= s-(M+2)g) = {}", s, g, pmax, hi), wit());
                 return;
             }
@@ -391,8 +418,8 @@ fn case12<A: Alphabet>(case: u64, rng: &mut Rng, rep: &mut Report, alpha: &str, 
                 if let Ok(pv) = guard(|| t.pvalue(s)) {
                     let lo = ex.sf(s + (m + 1.0) * 0.1);
                     let hi = ex.sf(s - (m + 2.0) * 0.1);
-                    if pv < lo - noise || pv > hi + noise {
-                        let ignored = st.ex_nowild.as_ref().map_or(false, |a| pv >= a.sf(s + (m + 1.0) * 0.1) - noise && pv <= a.sf(s - (m + 2.0) * 0.1) + noise);
+                    if lt(pv, lo, noise) || gt(pv, hi, noise) {
+                        let ignored = st.ex_nowild.as_ref().map_or(false, |a| !lt(pv, a.sf(s + (m + 1.0) * 0.1), noise) && !gt(pv, a.sf(s - (m + 2.0) * 0.1), noise));
                         rep.violate(if ignored { "c12.wildcard_symbol_ignored" } else { "c12.final_pvalue" }, case, format!("pvalue({}) on the reused object = {} outside [{}, {}] (bounds at granularity 0.1)", s, pv, lo, hi), st.witness(alpha, J::obj().set("score", J::f(s))));
                         return;
                     }
@@ -429,6 +456,18 @@ fn case13<A: Alphabet>(case: u64, rng: &mut Rng, rep: &mut Report, alpha: &str, 
     }
     for _ in 0..4 {
         ps.push((10f64.powf(-rng.f64() * 6.0).min(0.999), "p.log_uniform"));
+    }
+    // the smallest attainable tails (the best few words) and values between them: tiny under a
+    // skewed background
+    let nt = ex.tail.len();
+    for kk in 0..3usize.min(nt) {
+        let t = ex.tail[nt - 1 - kk];
+        if t > 0.0 && t < 1.0 {
+            ps.push((t, "p.smallest_tails"));
+            if kk > 0 {
+                ps.push(((t + ex.tail[nt - kk]) / 2.0, "p.smallest_tails"));
+            }
+        }
     }
     let min_tail = *ex.tail.last().unwrap();
     let mut shared: Option<TfmPvalue<A, &ScoringMatrix<A>>> = if rng.chance(0.5) { Some(TfmPvalue::new(&st.pssm)) } else { None };
@@ -497,15 +536,15 @@ fn case13<A: Alphabet>(case: u64, rng: &mut Rng, rep: &mut Report, alpha: &str, 
             let d = (m + 2.0) * g;
             let upper_tail = ex.sf(t + d);
             let wit = |extra: J| st.witness(alpha, J::obj().set("p", J::f(p)).set("granularity", J::f(g)).set("threshold", J::f(t)).set("converged", J::Bool(it.converged)).set("object", J::s(if shared.is_some() { "reused" } else { "fresh" })).set("more", extra));
-            if upper_tail > p + noise {
-                let ignored = st.ex_nowild.as_ref().map_or(false, |a| a.sf(t + d) <= p + noise);
+            if gt(upper_tail, p, noise) {
+                let ignored = st.ex_nowild.as_ref().map_or(false, |a| !gt(a.sf(t + d), p, noise));
                 rep.violate(if ignored { "c13.wildcard_symbol_ignored" } else { "c13.upper_side" }, case, format!("p {} granularity {}: threshold {} but P(S >= t+d) = {} > p (d = {})", p, g, t, upper_tail, d), wit(J::Null));
                 return;
             }
             if let Some(u) = ex.largest_below(t - d) {
                 rep.cover("lower_side.checked");
                 let lower_tail = ex.sf(u - d);
-                if lower_tail < p - noise {
+                if lt(lower_tail, p, noise) {
                     // root-cause predicate of the known finding: the failing iteration declares
                     // convergence AND the frozen copy of the reference algorithm (tfm_ref) yields exactly
                     // the same iterations, i.e. the failure is the window limitation inherent to the
@@ -535,7 +574,7 @@ fn case13<A: Alphabet>(case: u64, rng: &mut Rng, rep: &mut Report, alpha: &str, 
                     };
                     let ignored = st.ex_nowild.as_ref().map_or(false, |a| match a.largest_below(t - d) {
                         None => true,
-                        Some(u2) => a.sf(u2 - d) >= p - noise,
+                        Some(u2) => !lt(a.sf(u2 - d), p, noise),
                     });
                     let kind = if ignored {
                         "c13.wildcard_symbol_ignored"
@@ -582,8 +621,8 @@ fn case13<A: Alphabet>(case: u64, rng: &mut Rng, rep: &mut Report, alpha: &str, 
                 }
                 if let Ok(sc) = guard(|| tt.score(p)) {
                     let d = (m + 2.0) * 0.1;
-                    if ex.sf(sc + d) > p + noise {
-                        let ignored = st.ex_nowild.as_ref().map_or(false, |a| a.sf(sc + d) <= p + noise);
+                    if gt(ex.sf(sc + d), p, noise) {
+                        let ignored = st.ex_nowild.as_ref().map_or(false, |a| !gt(a.sf(sc + d), p, noise));
                         rep.violate(if ignored { "c13.wildcard_symbol_ignored" } else { "c13.final_score" }, case, format!("score({}) on the reused object = {} but P(S >= t+d) = {} > p at d = (M+2) x 0.1", p, sc, ex.sf(sc + d)), st.witness(alpha, J::obj().set("p", J::f(p))));
                         return;
                     }
